@@ -65,6 +65,63 @@ package main
 //@   oncall ChopFile: requires $arg2 == $mk
 //@   oncall storeCaibxFile: requires $arg0.Chunks == $mk && $arg0.Index.ChunkSizeMin == $mkMin && $arg0.Index.ChunkSizeAvg == $mkAvg && $arg0.Index.ChunkSizeMax == $mkMax && $arg0.Index.FeatureFlags == $mkFlags
 
+//# chop: the chunks are stored in the store the user named, opened writable with this command's options; what is cut
+//# up is the file the user named, with the concurrency option of the command; without ignore lists the chunks are exactly
+//# those of the index the user named; the command succeeds only if ChopFile did (its contract: nil implies every chunk
+//# handed to it is in the store)
+//@ ghost var $chopped bool
+//@ ghost var $cws desync.WriteStore
+//@ ghost var $cidx []desync.IndexChunk
+//@ ghost var $cread int
+//@ func runChop
+//@   prop C06
+//@   safety none
+//# (the concurrency option is positive: a user input that is not validated by the command, assumed - as in runMake)
+//@   assume@entry opt.n >= 1
+//@   ghost@entry $chopped = false
+//@   ghost@entry $cread = 0
+//@   ghost@after:WritableStore $cws = $r0
+//@   ghost@after:readCaibxFile $cidx = ite($cread == 0, $r0.Chunks, $cidx)
+//@   ghost@after:readCaibxFile $cread = $cread + 1
+//@   ghost@after:ChopFile $chopped = $r0 == nil
+//@   oncall WritableStore: requires $arg0 == opt.store && $arg1 == opt.cmdStoreOptions
+//@   oncall readCaibxFile#1: requires $arg0 == old(args[0])
+//@   oncall ChopFile: requires $arg1 == old(args[1]) && $arg3 == $cws && $arg4 == opt.n
+//@   oncall ChopFile: requires len(opt.ignoreIndexes) == 0 && len(opt.ignoreChunks) == 0 ==> $arg2 == $cidx
+//@   loop 1: invariant true
+//@   loop 2: invariant true
+//@   loop 3: invariant true
+//@   loop 4: invariant true
+//@   loop 5: invariant true
+//@   loop 6: invariant true
+//@   ensures r0 == nil ==> $chopped
+
+//# cache: chunks are copied from the router over the source stores the user named into the store the user named as
+//# the cache, opened writable, both with this command's options and its concurrency option; the command succeeds only if
+//# Copy did (its contract: nil implies every ID handed to it was copied)
+//@ ghost var $copied bool
+//@ ghost var $csrc desync.Store
+//@ ghost var $cdst desync.WriteStore
+//@ func runCache
+//@   prop C06
+//@   safety none
+//@   assume@entry opt.n >= 1
+//@   ghost@entry $copied = false
+//@   ghost@after:multiStoreWithRouter $csrc = $r0
+//@   ghost@after:WritableStore $cdst = $r0
+//@   ghost@after:Copy $copied = $r0 == nil
+//@   oncall multiStoreWithRouter: requires $arg0 == opt.cmdStoreOptions && $arg1 == opt.stores
+//@   oncall WritableStore: requires $arg0 == opt.cache && $arg1 == opt.cmdStoreOptions
+//@   oncall Copy: requires $arg2 == $csrc && $arg3 == $cdst && $arg4 == opt.n
+//@   loop 1: invariant true
+//@   loop 2: invariant true
+//@   loop 3: invariant true
+//@   loop 4: invariant true
+//@   loop 5: invariant true
+//@   loop 6: invariant true
+//@   loop 7: invariant true
+//@   ensures r0 == nil ==> $copied
+
 //# verify: the store that is verified is the one the user named, opened with the options the configuration
 //# holds for exactly that location (uncompressed stores keep other file names: with the wrong options the walk
 //# would look at none of the store's chunks and report nothing), and the repair / concurrency options are the
